@@ -13,6 +13,7 @@ import (
 	"errors"
 	"flag"
 	"fmt"
+	"io"
 	"net/http"
 	"net/http/httptest"
 	"os"
@@ -169,6 +170,39 @@ func main() {
 					break
 				}
 			}
+		}
+	}))
+
+	// ---- one debug doer (what the generated command line tools install for --verbose) shared by concurrent calls: each request body
+	// reaches the server as it was written
+	out.Encode(scenario("shared-debug-doer", func(t *tally) {
+		srv := httptest.NewServer(http.HandlerFunc(func(w http.ResponseWriter, r *http.Request) {
+			b, _ := io.ReadAll(r.Body)
+			w.Write(b) // nolint: errcheck
+		}))
+		defer srv.Close()
+		stderr := os.Stderr
+		if null, err := os.OpenFile(os.DevNull, os.O_WRONLY, 0); err == nil {
+			os.Stderr = null
+			defer func() { os.Stderr = stderr; null.Close() }()
+		}
+		doer := goahttp.NewDebugDoer(srv.Client())
+		for r := 0; r < R; r++ {
+			together(N, func(i int) {
+				t.call()
+				body := strings.Repeat(fmt.Sprintf("body-%d-%d-%d;", S, r, i), 40+i)
+				req, _ := http.NewRequest("POST", srv.URL, strings.NewReader(body))
+				resp, err := doer.Do(req)
+				if err != nil {
+					t.bad("request %d: %v", i, err)
+					return
+				}
+				got, _ := io.ReadAll(resp.Body)
+				resp.Body.Close()
+				if string(got) != body {
+					t.bad("request %d: the server received %d bytes that are not the %d bytes written", i, len(got), len(body))
+				}
+			})
 		}
 	}))
 
